@@ -90,7 +90,8 @@ def e2e_cases(run):
     bodies = [("b1", 40, 0, 0, 1), ("b2", 40, 0, 0, 1), ("b1", 33, 0, 1, 1), ("b2", 48, 0, 1, 0)]
     lines += gen_block.e2e_sched_exhaustive(r, ".x2", 5 if quick else 9, bodies[:2 if quick else 4])
     lines += gen_block.e2e_sched_exhaustive(r, ".xrh", 4 if quick else 7, bodies[2:])
-    lines += gen_block.e2e_sched_random(r, 1500 if quick else 40000)
+    lines += gen_block.e2e_sched_random(r, 1500 if quick else 20000)
+    lines += gen_block.e2e_two_uploads(r, 300 if quick else 6000)
     return lines
 
 
@@ -151,7 +152,7 @@ def e2e(run, model):
         run.hist("e2e_sched", "lossless" if case.lossless() else "faulty")
         run.hist("e2e_len", "0" if case.len == 0 else "<=1024" if case.len <= 1024 else
                  "<=8192" if case.len <= 8192 else ">8192")
-        run.hist("e2e_outcome", "delivered" if (" HS:3:" in out and case.dir == "b1") or
+        run.hist("e2e_outcome", "delivered" if (" HS:3:" in out and case.dir in ("b1", "b11")) or
                  (" HC:69:" in out and case.dir == "b2") else "not-delivered")
         if i % 397 == 5:
             run.sample({"case": ln, "impl": out[:240] + " ..."})
@@ -180,16 +181,28 @@ def peer(run, model):
             t = l.split()
             cases.append((l, "blkpeer %s %s %s %s %s" % (t[1], t[2], t[3], "0" if t[4] == "7" else t[4],
                                                         " ".join(t[6:]))))
-    cases += gen_block.peer_cases(r, 700 if quick else 15000, 0.0)
-    cases += gen_block.peer_cases(r, 1300 if quick else 30000, 0.35)
-    cases += gen_block.peer_cases(r, 500 if quick else 10000, 0.7)
+    ncons = len(cases)
+    cases += gen_block.peer_cases(r, 900 if quick else 12000, 0.0)
+    ncons = len(cases)            # up to here the peer is honest: the oracle applies
+    cases += gen_block.peer_cases(r, 1100 if quick else 20000, 0.35)
+    cases += gen_block.peer_cases(r, 500 if quick else 8000, 0.7)
     mo, _ = vlib.run_lines_robust(model, [m for d, m in cases], timeout=1500)
     co, crashes = vlib.run_lines_robust(drv, [d for d, m in cases], timeout=1500)
     run.cov["peer_driver_crashes"] = len(crashes)
     nbad = 0
-    for (d, m), a, b in zip(cases, mo, co):
+    nmix = 0
+    for ci, ((d, m), a, b) in enumerate(zip(cases, mo, co)):
         aa, bb = a.split(), b.split()
         run.count(d, len(bb) >= 5)
+        if ci < ncons and any(x.endswith(":!") for x in bb):
+            # implementation-only oracle: every block came from an honest sender (each
+            # Request-Tag / ETag has its own body), yet a delivered body is not the body of the
+            # transfer it was delivered for
+            nmix += 1
+            if nmix <= 2:
+                run.violation("a delivered body is not the body of its transfer (blocks of two transfers "
+                              "were mixed, or bytes are wrong)",
+                              "case: %s\nimpl : %s\nmodel: %s\n" % (d, b, a), tag="peermix%d" % nmix)
         run.hist("peer_dir", d.split()[1])
         for x in bb:
             run.hist("peer_outcome", x[0])
@@ -217,6 +230,8 @@ def peer(run, model):
                 run.violation(what, "case: %s\nmodel case: %s\nmodel: %s\nimpl : %s\n(shrunk: %s)\n" %
                               (d, m, a, b, small), tag="peer%d" % nbad, no_input=True)
     run.cov["peer_cases"] = len(cases)
+    run.cov["peer_honest_cases"] = ncons
+    run.cov["peer_mixed_deliveries"] = nmix
     run.cov["peer_disagreements"] = nbad
 
 
